@@ -44,6 +44,7 @@ import warnings
 import numpy as np
 
 from ..gen import arrays as A
+from ..mon import siblings as S
 from ..mon.compare import compare_arrays, lazy_meta_mismatch
 
 PROP = "C32"
@@ -351,6 +352,32 @@ def _run_a(case, ctx):
                 ctx.violation("percentile:%s:%s" % (feat, sy), msg, **detail)
     ctx.sample = {"data": x.tolist()[:12], "chunks": case["chunks"], "method": m, "q": qv.tolist(),
                   "result": None if pf is None else pf.tolist(), "rounding_tolerance": tol}
+    # ---- sibling facet: the same array with another q / method must not share keys with this result ----------------
+    if r is not None:
+        import dask.array as da
+
+        param, q2, m2 = _sibling_qm(case, q, m)
+        S.check(ctx, "percentile", param, r, (lambda: da.percentile(da.from_array(x, chunks=chunks), q2, method=m2)),
+                describe={"q": q2, "method": m2})
+
+
+def _sibling_qm(case, q, m):
+    """(parameter, q, method) with ONE of q / method changed"""
+    srng = S.rng_for(case)
+    if srng.random() < 0.35:
+        return "method", q, srng.choice([v for v in METHODS if v != m])
+    pool = (0, 10, 25, 37.5, 50, 62.5, 75, 90, 100)
+    if isinstance(q, list):
+        q2 = list(q)
+        if q2:
+            i = srng.randrange(len(q2))
+            q2[i] = srng.choice([v for v in pool if v != q2[i]])
+            q2 = sorted(q2)
+        else:
+            q2 = [50]
+    else:
+        q2 = srng.choice([v for v in pool if v != q])
+    return "q", q2, m
 
 
 def _close(a, b, tol):
@@ -446,3 +473,22 @@ def _run_b(case, ctx):
         ctx.violation("nanpercentile:%s:%s" % ("&".join(f), mm[0]), mm[1], q=q, axis=axis, chunks=case["chunks"])
     ctx.sample = {"shape": case["shape"], "chunks": case["chunks"], "axis": axis, "q": q, "method": m,
                   "result_shape": list(rv.shape), "dtype": str(rv.dtype)}
+    # ---- sibling facet: the same array with another q / method / axis / keepdims must not share keys ---------------
+    import dask.array as da
+
+    srng = S.rng_for(case, salt="b")
+    u = srng.random()
+    q2, m2, axis2, kd2 = q, m, axis, kd
+    if u < 0.2 and x.ndim >= 2:
+        param, axis2 = "axis", srng.choice([a for a in range(x.ndim) if a != ax])
+    elif u < 0.35:
+        param, kd2 = "keepdims", not kd
+    else:
+        param, q2, m2 = _sibling_qm(case, q, m)
+        if param == "q" and isinstance(q2, list):
+            q2 = list(q)            # nanpercentile takes q in the given order
+            i = srng.randrange(len(q2))
+            q2[i] = srng.choice([v for v in (0, 10, 25, 50, 62.5, 90, 100) if v != q2[i]])
+    S.check(ctx, "nanpercentile", param, r,
+            (lambda: da.nanpercentile(da.from_array(x, chunks=chunks), q2, axis=axis2, method=m2, keepdims=kd2)), va=rv,
+            describe={"q": q2, "method": m2, "axis": axis2, "keepdims": kd2})
